@@ -1372,7 +1372,7 @@ class Exec:
             if isinstance(op, ast.BitAnd):
                 return self.newbox(z3.Map(_and_decl(), ta, tb), SetOf(ty.elem))
             if isinstance(op, (ast.BitOr,)) or (isinstance(op, ast.Add) and ty.listlike):
-                if ty.listlike:
+                if ty.listlike and not getattr(ty, 'dups_ok', False):
                     self.vc('nodup.concat@%d' % line, z3.Map(_and_decl(), ta, tb) == ty.empty(), line)
                 return self.newbox(z3.Map(_or_decl(), ta, tb), ty)
             if isinstance(op, ast.Sub):
@@ -2117,6 +2117,8 @@ class Exec:
         args = {}
         for nm, v in zip(params, argvals):
             ty = ptypes[nm]
+            if v is None and isinstance(ty, SetOf) and nm in (getattr(kc, 'none_as_empty', None) or ()):
+                v = set()       # the callee's contract declares that it treats None like an empty collection for this parameter
             if isinstance(ty, Ty):
                 args[nm] = self.to_z3(v, ty)
             else:
